@@ -3,7 +3,7 @@ import json, threading, time
 from concurrent.futures import ThreadPoolExecutor
 from vcheck import *
 from wcommon import *
-import c02_amode, c02_elide, c02_guard, c02_enc
+import c02_amode, c02_elide, c02_guard, c02_enc, c02_top4g
 
 
 def run(tier, seed):
@@ -55,19 +55,21 @@ def run(tier, seed):
     fut_e = pool.submit(stream, c02_elide, "elide")
     fut_g = pool.submit(stream, c02_guard, "guard")
     fut_x = pool.submit(stream, c02_enc, "enc")
+    fut_t = pool.submit(stream, c02_top4g, "top4g")
     rc, out = sh([binp, "-seed", str(seed), "-n", str(n), "-big", str(big)], timeout=2400)
     cases = [json.loads(l) for l in out.split("\n") if l.startswith("{")]
     na, da, dist_a, samp_a = fut_a.result()
     ne, de, dist_e, samp_e = fut_e.result()
     ng, dg, dist_g, samp_g = fut_g.result()
     nx, dx, dist_x, samp_x = fut_x.result()
+    nt, dt, dist_t, samp_t = fut_t.result()
     ck.note("streams: amode %d cases, elide %d functions, enc %d operand encodings (%d instruction lists), guard %d calls (%d programs, %d at the last in-bounds position, %d children died), end-to-end %d programs (harness phase %.1fs)"
             % (na, ne, nx, dist_x.get("sequences", 0), ng, dist_g.get("programs", 0), dist_g.get("main_access_at_last_in_bounds_position", 0), dist_g.get("children_died", 0), len(cases), time.time() - t0))
     if rc != 0 or not cases:
         ck.violation("process-fault", {"kind": "process-fault"}, {"rc": rc, "tail": out[-3000:]})
         return ck.finish()
-    ck.cases = len(cases) * 2 + na + ne + ng + nx
-    dist = {"direct_amode": dist_a, "direct_elide": dist_e, "direct_enc": dist_x, "guard": dist_g, "calls": 0, "outcomes": {}, "memories_above_2GiB": 0, "model_out_of_fuel": 0}
+    ck.cases = len(cases) * 2 + na + ne + ng + nx + nt
+    dist = {"direct_amode": dist_a, "direct_elide": dist_e, "direct_enc": dist_x, "guard": dist_g, "top_of_4GiB_interpreter": dist_t, "calls": 0, "outcomes": {}, "memories_above_2GiB": 0, "model_out_of_fuel": 0}
     for c in cases:
         if c["pages"] > 32768: dist["memories_above_2GiB"] += 1
         for o in (c["engines"]["compiler"].get("obs") or []):
